@@ -350,6 +350,8 @@ def run_check(prop, tier, master, workers=None, runs_override=None):
         try:
             for fut in concurrent.futures.as_completed(futs):
                 k = futs[fut]
+                if fut.cancelled():
+                    continue
                 try:
                     agg = fut.result()
                 except concurrent.futures.process.BrokenProcessPool:
